@@ -2,7 +2,7 @@
    (crates/echo-wasm-abi/src/canonical.rs, modelled in Model/Cbor.v).
    Only property theorems live here: each is closed by [exact], pinned by
    [Check ... : statement] and followed by [Print Assumptions]. *)
-From Coq Require Import List NArith ZArith.
+From Coq Require Import List NArith ZArith Permutation.
 From Echo Require Import Base.Bytes Model.Cbor Model.Fmt Proofs.CborFloatProofs Proofs.CborProofs Proofs.FmtProofs.
 Import ListNotations.
 Open Scope N_scope.
@@ -35,6 +35,15 @@ Proof. exact cbor_decode_injective_core. Qed.
 Check cbor_decode_injective : forall b1 b2 v,
   wf_bytes b1 = true -> wf_bytes b2 = true -> decode b1 = Ok v -> decode b2 = Ok v -> b1 = b2.
 Print Assumptions cbor_decode_injective.
+
+(* encoding is a function of the value as a MAP: the order in which entries were inserted into a
+   map does not influence the bytes (writer determinism) *)
+Theorem cbor_enc_map_order_free : forall es1 es2 b,
+  Permutation es1 es2 -> enc (VMap es1) = Ok b -> enc (VMap es2) = Ok b.
+Proof. exact enc_map_order_free. Qed.
+Check cbor_enc_map_order_free : forall es1 es2 b,
+  Permutation es1 es2 -> enc (VMap es1) = Ok b -> enc (VMap es2) = Ok b.
+Print Assumptions cbor_enc_map_order_free.
 
 (* every other spelling is rejected: a byte string different from THE encoding of v never decodes to v *)
 Theorem cbor_noncanonical_rejected : forall v b b',
@@ -224,15 +233,19 @@ Proof. exact all_descriptors_wf. Qed.
 Check record_descriptors_wf : forallb wf_fmt all_descriptors = true.
 Print Assumptions record_descriptors_wf.
 
-(* DESIGN section 6 F8, the code as it is: StrandForkRecord::from_payload_bytes sorts the writer heads
-   it read, so accepted => canonical is FALSE for this record (witness replayed on the
-   implementation by the check: case `rec=14` with heads in descending order). *)
-Theorem strand_fork_canonical_refuted :
-  exists b v, wf_bytes b = true /\ strand_fork_dec b = Some v /\ strand_fork_enc v <> Some b.
-Proof. exact strand_fork_refuted. Qed.
-Check strand_fork_canonical_refuted :
-  exists b v, wf_bytes b = true /\ strand_fork_dec b = Some v /\ strand_fork_enc v <> Some b.
-Print Assumptions strand_fork_canonical_refuted.
+(* DESIGN section 6 F8 (found by this check, fixed in /repo): StrandForkRecord::from_payload_bytes
+   used to sort the writer heads it read; it now rejects a non-canonical order, so accepted =>
+   canonical holds for this record too.  The old witness stays as a regression example. *)
+Theorem strand_fork_canonical : forall b v,
+  wf_bytes b = true -> strand_fork_dec b = Some v -> strand_fork_enc v = Some b.
+Proof. exact strand_fork_canonical_core. Qed.
+Check strand_fork_canonical : forall b v,
+  wf_bytes b = true -> strand_fork_dec b = Some v -> strand_fork_enc v = Some b.
+Print Assumptions strand_fork_canonical.
+
+Example strand_fork_unsorted_heads_now_rejected :
+  wf_bytes fork_witness = true /\ dec_top d_strand_fork fork_witness <> None /\ strand_fork_dec fork_witness = None.
+Proof. exact fork_witness_rejected. Qed.
 
 Example fmt_nonvacuous :
   let v := XSeq [XRaw (repeat 7 32); XRaw (repeat 9 32); XSome (XRaw (repeat 1 32)); XRaw (repeat 0 32)] in
